@@ -41,7 +41,10 @@ Companions == {<<>>, <<Plain("id", AvExpr(Ident("u1", FALSE, Num(7))))>>, <<Plai
                <<VHtml(AvExpr(Ident("hh", FALSE, S(<<104>>))))>>, <<VText(AvStr(<<"a", "sp">>))>>,
                <<VHtml(AvStr(<<"b">>))>>, <<VText(AvExpr(Call("tt", S(<<116>>))))>>,
                <<VHtml(AvArr(ArrLit(<<Ident("hh", FALSE, S(<<104>>)), Lit(Num(2))>>), FALSE, Undefined, FALSE, <<>>))>>,
-               <<VText(AvArr(Ident("hh", FALSE, S(<<104>>)), FALSE, Undefined, FALSE, <<>>))>>}
+               <<VText(AvArr(Ident("hh", FALSE, S(<<104>>)), FALSE, Undefined, FALSE, <<>>))>>,
+               \* a JSX element as an attribute value (with a directive of its own): the host keeps its directives
+               <<Plain("icon", AvElem(Elem(TagHtml("i"), <<Plain("class", AvStr(<<"c">>))>>, <<>>)))>>,
+               <<Plain("icon", AvElem(Elem(TagHtml("i"), <<Dir("kebab", <<"show">>, "", <<>>, AvExpr(Ident("sv", FALSE, Bool(TRUE))))>>, <<>>)))>>}
 Hosts == {TagHtml("div"), TagComp("Foo", TRUE, Opq("vFoo"))}
 Kids  == {<<>>, <<ChText(<<"a">>), ChExpr(Ident("cu", FALSE, S(<<115>>)))>>}
 
